@@ -153,22 +153,24 @@ class DeviceInfoCache:
         if (cache_id is not None) and (device_info.deviceIdentifier != cache_id):
             if _debug: DeviceInfoCache._debug("    - device identifier updated")
 
-            # remove the old reference, add the new one
-            del self.cache[cache_id]
-            self.cache[device_info.deviceIdentifier] = device_info
+            # remove the old reference unless another record has taken
+            # that key over in the meantime
+            if self.cache.get(cache_id, None) is device_info:
+                del self.cache[cache_id]
 
         if (cache_address is not None) and (device_info.address != cache_address):
             if _debug: DeviceInfoCache._debug("    - device address updated")
 
-            # remove the old reference, add the new one
-            del self.cache[cache_address]
-            self.cache[device_info.address] = device_info
+            # remove the old reference unless another record has taken
+            # that key over in the meantime
+            if self.cache.get(cache_address, None) is device_info:
+                del self.cache[cache_address]
 
-        # a record that has not been cached before is added under both keys
-        if cache_id is None:
-            self.cache[device_info.deviceIdentifier] = device_info
-        if cache_address is None:
-            self.cache[device_info.address] = device_info
+        # the record is filed under both of its current keys, this covers a
+        # record that has not been cached before and one whose key was taken
+        # over by the record of another device since
+        self.cache[device_info.deviceIdentifier] = device_info
+        self.cache[device_info.address] = device_info
 
         # update the keys
         device_info._cache_keys = (device_info.deviceIdentifier, device_info.address)
